@@ -13,7 +13,9 @@
 //! * `spill_cleanup`: raw spill files and abandoned (never finalized) spillable operators: the
 //!   `SpillManager` removes every file on `cleanup()` and on drop.
 
+pub mod adaptive;
 pub mod exec;
+pub mod joins;
 pub mod model;
 
 use std::collections::BTreeSet;
@@ -117,7 +119,7 @@ fn chain_strategy() -> impl Strategy<Value = RawChain> {
     (proptest::collection::vec(pre, 0..3), breaker, lim, post).prop_map(|(pre, breaker, limit, post_project)| RawChain { pre, breaker, limit, post_project })
 }
 
-fn split_strategy() -> impl Strategy<Value = Split> {
+pub fn split_strategy() -> impl Strategy<Value = Split> {
     prop_oneof![
         2 => prop_oneof![Just(2048u32), Just(1024), Just(2047), Just(2049), Just(100_000)].prop_map(Split::Fixed),
         2 => (1u32..70).prop_map(Split::Fixed),
@@ -805,7 +807,9 @@ pub fn run(r: &mut Run) {
               chains = up to 2 of {filter, project, distinct} + optional {multi-key sort asc/desc nulls first/last | distinct-on | global/grouped aggregate of count*/count/sum/min/max/avg} + optional skip/limit + optional projection after the limit; \
               each case carries 3 (spill, parallel: 2) configurations (chunk split incl. empty chunks, typed/untyped vectors, source kind, operator flavours, spill threshold 0..unlimited, explicit cleanup vs drop, workers 1..16, pressure level -> morsel size 1K/16K/64K, partition chunk size) and is run under one mode per sub-check (pull / push Pipeline / push with spillable operators / ParallelPipeline + library merge, the latter 3x per configuration for schedule sampling). \
               12% of the cases have a mixed-type (Int64/Float64/String/NULL) first column. merge_* / external_sort / morsels: explicit assignment of rows to <= 8 workers. \
-              non-trivial = the input spans >= 2 chunks (pull/push), wrote >= 1 spill file (spill), >= 2 morsels (parallel), >= 2 non-empty runs/partials/sets (merge_*) AND the key columns hold a duplicate or a NULL; distinct by hash of the case"
+              adaptive: the same (table, chain, chunking) cases, each under 3 adaptive configurations = entry point (execute_adaptive / AdaptivePipelineExecutor::execute_collecting / ::execute / tracked pull chain / tracked push Pipeline / engine Executor::execute_adaptive) x check interval {0, 1, <50, 1024, 2048, 10000, <5000} x threshold 0.1..10000 x min_rows {0, 1, <100, 1000, <5000, max} x estimates of 0..3 checkpoints in per-mille of the true count (0 = unknown ... 1000000), so that the re-optimisation flag is raised mid-stream in part of the cases and never in the others (class suffix /reopt, /steady). \
+              joins: left x right tables (0..40 mostly, one side 2047/2048/2049/4096/4097 rows, ln*rn <= 250000) x {hash: inner, left, right, full, cross, semi, anti | nested loop: inner, left, cross} x 0/1/2 key column pairs (right key columns take the kind of their left partner; 8% mixed-type key columns) x independent chunk splits (incl. empty chunks) x typed/untyped vectors x selection vectors (every k-th physical row deselected) x optional second iteration after reset(). \
+              non-trivial = the input spans >= 2 chunks (pull/push/adaptive/joins; joins also: non-empty result), wrote >= 1 spill file (spill), >= 2 morsels (parallel), >= 2 non-empty runs/partials/sets (merge_*) AND the key columns hold a duplicate or a NULL; distinct by hash of the case"
         .into();
     r.assumptions.push("OS-level thread interleavings inside a running ParallelPipeline / MorselScheduler are sampled by repetition (each parallel case runs 3 times and must give the same multiset), not enumerated".into());
     r.assumptions.push("the reference for filters is the semantics the public pull predicate (ExpressionPredicate) and the push ColumnPredicate share on same-typed operands (NULL = NULL true, <> its negation, ordering false on NULL); filters are only placed on homogeneous columns, ordering comparisons not on Bool columns (pull: undefined, push: false<true)".into());
@@ -813,7 +817,9 @@ pub fn run(r: &mut Run) {
     r.assumptions.push("LIMIT without a total order is judged by validity (right count, sub-multiset of the unlimited result, key sequence if sorted); sort ties may be permuted".into());
     r.assumptions.push("for mixed-type sort key columns no order is documented: only the multiset is demanded there by the reference; order / panic failures in that class carry the signature …/sort-mixed-type-key".into());
     r.assumptions.push("spill-file contract as documented on SpillManager: all spill files are removed by cleanup() and on drop of the manager; ExternalSort additionally documents removal of its run files on drop; PartitionedState files are only required to be gone after the manager's cleanup".into());
-    r.assumptions.push("ParallelPipelineConfig::morsel_size is ignored by the implementation (the morsel size comes from the pressure level only), so morsel sizes are 1024/16384/32768/65536; a ParallelPipeline applies LIMIT per worker, so a parallel LIMIT is judged after truncation by validity; AVG and DISTINCT ON are not expressible through the parallel merge functions; parallel/fold.rs needs rayon iterators (not a harness dependency) and joins have no spilling variant: both not covered".into());
+    r.assumptions.push("ParallelPipelineConfig::morsel_size is ignored by the implementation (the morsel size comes from the pressure level only), so morsel sizes are 1024/16384/32768/65536; a ParallelPipeline applies LIMIT per worker, so a parallel LIMIT is judged after truncation by validity; AVG and DISTINCT ON are not expressible through the parallel merge functions; parallel/fold.rs needs rayon iterators (not a harness dependency) and joins have no spilling variant (the in-memory join operators are covered by `joins`)".into());
+    r.assumptions.push("adaptive: the adaptive layer of this tree never swaps a plan (PlanFactory is a type alias without a user); what is decided is transparency (rows = reference for every configuration) and the module's documented bookkeeping: a tracking wrapper / operator / sink reports the number of rows that flowed through it (exact unless a LIMIT downstream may end the stream early, then <=), and the re-optimisation flag is only ever raised by a checkpoint whose count deviates from its estimate by more than the threshold on >= min_rows rows (estimate <= 0 with rows > 0 counts as infinite deviation, as the module's unit tests pin); for the push pipeline, where every count is final when asked, should_reoptimize() is determined exactly".into());
+    r.assumptions.push("joins: the reference is the nested loop over all row pairs with structural key equality (type tag + payload, as HashKey) in which a NULL key matches nothing (SQL; HashJoinOperator states it for inner/semi/anti); outputs are compared as multisets (no order is documented); NestedLoopJoinOperator is only asked for Inner / Left / Cross (it documents match tracking for Left only); Semi / Anti get the left columns as output schema; a case drawn as Cross with key columns runs as Inner".into());
 
     let thorough = r.is_thorough();
     for mode in [Mode::Pull, Mode::Push, Mode::Spill, Mode::Parallel] {
@@ -834,4 +840,6 @@ pub fn run(r: &mut Run) {
     r.subcheck("external_sort", r.cases(1500, 30_000), move || merge_case_strategy(10, max_n), external_sort_check);
     r.subcheck("spill_cleanup", r.cases(1500, 20_000), cleanup_case_strategy, spill_cleanup_check);
     r.subcheck("morsels", r.cases(600, 15_000), morsel_case_strategy, morsels_check);
+    r.subcheck("adaptive", r.cases(1200, 20_000), move || adaptive::adaptive_case_strategy(thorough), adaptive::adaptive_check);
+    r.subcheck("joins", r.cases(6000, 100_000), joins::join_case_strategy, joins::joins_check);
 }
